@@ -629,6 +629,7 @@ func (g *gen) fields(n, depth int, objectOnly bool) []*Field {
 	for i := 0; i < n; i++ {
 		f := &Field{Name: g.fieldName(taken), Desc: g.desc()}
 		f.Type = g.fieldType(depth, objectOnly, !objectOnly, f.Name)
+		sibling := g.shadow(f, taken, objectOnly)
 		if !objectOnly {
 			switch rapid.IntRange(0, 5).Draw(t, "presence") {
 			case 0:
@@ -681,8 +682,59 @@ func (g *gen) fields(n, depth int, objectOnly bool) []*Field {
 			g.cls("inline-name-override")
 		}
 		out = append(out, f)
+		if sibling != nil {
+			out = append(out, sibling)
+		}
 	}
 	return out
+}
+
+// shadow renames a field with an inline type after a top-level type of the
+// current package (the enclosing one included): an inline type is named after
+// its field, so the nested Parent.X then shadows the top-level X in protobuf's
+// scoping. Half the time a sibling field referring to that top-level X is
+// returned as well - the reference the shadow can capture.
+func (g *gen) shadow(f *Field, taken map[string]bool, objectOnly bool) *Field {
+	t := g.t
+	il := f.Type
+	if il.Items != nil {
+		il = il.Items
+	}
+	if il.InlineObject == nil && il.InlineOneof == nil && il.InlineEnum == nil {
+		return nil
+	}
+	if rapid.IntRange(0, 5).Draw(t, "shadowname") != 0 {
+		return nil
+	}
+	var cands []*typeInfo
+	for _, ti := range g.types {
+		if ti.pkg == g.curPkg.Name {
+			cands = append(cands, ti)
+		}
+	}
+	if len(cands) == 0 {
+		return nil
+	}
+	target := rapid.SampledFrom(cands).Draw(t, "shadowed")
+	cand := lowerFirst(target.name)
+	if taken[strings.ToLower(snake(cand))] {
+		return nil
+	}
+	delete(taken, strings.ToLower(snake(f.Name)))
+	f.Name = cand
+	taken[strings.ToLower(snake(cand))] = true
+	g.cls("inline-shadows-type")
+	// the sibling may only refer to types that are already declarable here
+	if target.pkgIdx > g.cur.pkgIdx || (target.pkgIdx == g.cur.pkgIdx && target.fileIdx > g.cur.fileIdx) {
+		return nil
+	}
+	if (objectOnly && target.kind != "object") || !rapid.Bool().Draw(t, "shadowsibling") {
+		return nil
+	}
+	sib := &Field{Name: g.fieldName(taken), Type: &Type{Kind: target.kind, Ref: g.refTo(target)}}
+	sib.Type.Ref.BodyRef = false
+	g.cls("inline-shadows-type:with-reference")
+	return sib
 }
 
 var httpMethods = []string{"GET", "POST", "PUT", "PATCH", "DELETE"}
@@ -696,7 +748,11 @@ func (g *gen) simpleFields(n int) []*Field {
 		if f.Type.Flatten {
 			f.Type.Flatten = false
 		}
+		sibling := g.shadow(f, taken, false)
 		out = append(out, f)
+		if sibling != nil {
+			out = append(out, sibling)
+		}
 	}
 	return out
 }
